@@ -234,6 +234,8 @@ pub fn run(ctx: &Ctx) -> Report {
         rep
     });
     stage("c17.midi.arbitrary_bytes", r, &mut rep, t0);
+    let t0 = std::time::Instant::now();
+    stage("c17.midi.repeat_storms", midi::repeat_storms(ctx, want), &mut rep, t0);
     // quantizer, glide, ribbon generators
     let t0 = std::time::Instant::now();
     stage("c17.quantizer.random", quant::random(ctx, want), &mut rep, t0);
